@@ -25,7 +25,7 @@ import ast
 
 from qstatic.cfg import cfg_of
 from qstatic.guards import (ArrDesc, Unk, Outcome, dominance_problems, extract_guards,
-                            guards_ahead, run_entry, summary_ishermitian, GuardInterp, DescDomain, explore,
+                            guard_still_ahead, run_entry, summary_ishermitian, GuardInterp, DescDomain, explore,
                             at_guard_test, guard_test_sites)
 from qstatic.interp import ClassRef, Instance
 from qstatic.src import AnalysisError
@@ -746,8 +746,9 @@ def run(ctx):
             if at_guard_test(interp):
                 return "stop"
             here = Outcome("stop", interp, stack=list(interp.stmt_stack))
-            todo = [g for (_c, g, F, nd) in cellguards if not _passed(here, F, nd)]
-            return None if guards_ahead(fi, here, todo, set()) else "stop"
+            ahead = any(guard_still_ahead(prog, fi, here, g, F, nd) for (_c, g, F, nd) in cellguards
+                        if not _passed(here, F, nd))
+            return None if ahead else "stop"
 
         for (lab, over) in indomain_variants(entry, ctx.thorough):
             partial = bool(over.get("@partial"))
@@ -772,10 +773,9 @@ def run(ctx):
                     if _passed(o, F, node):
                         passed_any[i] = True
                 if o.kind != "return" and not partial:
-                    todo = [(c, g) for (c, g, F, node) in cellguards if not _passed(o, F, node)]
-                    ahead = guards_ahead(fi, o, [g for (_c, g) in todo], set())
-                    if ahead:
-                        names = sorted({c for (c, g) in todo if any(g is a for a in ahead)})
+                    names = sorted({c for (c, g, F, node) in cellguards
+                                    if not _passed(o, F, node) and guard_still_ahead(prog, fi, o, g, F, node)})
+                    if names:
                         problems.append(f"{inst}: interpretation stops ({o.reason}) in front of the guard(s) of {names} "
                                         f"without having evaluated them")
         for i, (cname, g, F, node) in enumerate(cellguards):
